@@ -91,6 +91,9 @@ TLC_EVENT_KEYS = {
     "hang",
     "director_exc",
     "step_exc",
+    "write",
+    "finalize_end",
+    "ext_edit",
 }
 
 
@@ -105,6 +108,10 @@ def export_trace(tid: str, events: list[dict], keep=TLC_EVENT_KEYS) -> list[str]
         rec["k"] = len(lines) + 1
         rec.pop("msg", None)
         rec.pop("result", None)
+        if rec["ev"] == "ext_edit":
+            ed = rec.pop("edit")
+            rec["kind"] = ed[0]
+            rec["path"] = ed[1] if len(ed) > 1 and isinstance(ed[1], str) else ""
         if rec["ev"] == "rpc_begin":
             rec.pop("args", None)
         if rec["ev"] == "rpc_end" and rec.get("name") == "define_step" and "args" in rec:
